@@ -188,6 +188,14 @@ func c01Pool(r *core.Run) {
 				expand(acq, 0)
 				type fstate struct{ fresh, del, resetCall, assignParam, conditionalOnly bool }
 				fs := map[string]*fstate{}
+				// blocks in which a field is certainly emptied / re-initialised, per function
+				events := map[*ssa.Function]map[string][]*ssa.BasicBlock{}
+				mark := func(fn *ssa.Function, f string, b *ssa.BasicBlock) {
+					if events[fn] == nil {
+						events[fn] = map[string][]*ssa.BasicBlock{}
+					}
+					events[fn][f] = append(events[fn][f], b)
+				}
 				for i := 0; i < st.NumFields(); i++ {
 					fs[st.Field(i).Name()] = &fstate{}
 				}
@@ -206,19 +214,39 @@ func c01Pool(r *core.Run) {
 							switch v := x.Val.(type) {
 							case *ssa.Const, *ssa.MakeMap, *ssa.MakeSlice:
 								s.fresh = true
+								mark(fn, core.FieldName(fa.X.Type(), fa.Field), x.Block())
 							case *ssa.Parameter:
 								s.assignParam = true
 								_ = v
 							default:
 								if core.IsNilConst(x.Val) {
 									s.fresh = true
+									mark(fn, core.FieldName(fa.X.Type(), fa.Field), x.Block())
 								}
 							}
 						case ssa.CallInstruction:
 							c := x.Common()
 							if b, ok := c.Value.(*ssa.Builtin); ok && (b.Name() == "delete" || b.Name() == "clear") {
 								if _, f, ok := sigField(c.Args[0]); ok && fs[f] != nil {
-									fs[f].del = true
+									// delete(M, k) empties M only when k ranges over M itself
+									full := b.Name() == "clear"
+									evBlock := in.Block()
+									if !full && len(c.Args) == 2 {
+										if ex, ok := c.Args[1].(*ssa.Extract); ok && ex.Index == 1 {
+											if nx, ok := ex.Tuple.(*ssa.Next); ok {
+												if rg, ok := nx.Iter.(*ssa.Range); ok {
+													if _, f2, ok := sigField(rg.X); ok && f2 == f {
+														full = true
+														evBlock = rg.Block() // an empty map needs no delete
+													}
+												}
+											}
+										}
+									}
+									if full {
+										fs[f].del = true
+										mark(fn, f, evBlock)
+									}
 								}
 							}
 							if strings.HasSuffix(core.CalleeName(c), ").Reset") && len(c.Args) > 0 {
@@ -238,8 +266,38 @@ func c01Pool(r *core.Run) {
 				for _, f := range names {
 					s := fs[f]
 					construct := tn + "." + f + "@" + acq.Name()
+					// a reset that happens only on some paths (e.g. only when the map is nil) is no reset
+					onEveryPath := s.resetCall
+					for fn, ev := range events {
+						if len(ev[f]) == 0 || onEveryPath {
+							continue
+						}
+						cut := map[core.Edge]bool{}
+						atEntry := false
+						for _, eb := range ev[f] {
+							if eb == fn.Blocks[0] {
+								atEntry = true
+							}
+							for _, pr := range eb.Preds {
+								for i, sc := range pr.Succs {
+									if sc == eb {
+										cut[core.Edge{From: pr, Idx: i}] = true
+									}
+								}
+							}
+						}
+						all := true
+						for _, ret := range core.Returns(fn) {
+							if !atEntry && core.PathAvoiding(fn.Blocks[0], ret.Block(), cut) != nil {
+								all = false
+							}
+						}
+						if all {
+							onEveryPath = true
+						}
+					}
 					switch {
-					case s.fresh || s.del || s.resetCall:
+					case (s.fresh || s.del || s.resetCall) && onEveryPath:
 						nOK++
 						r.OK("C01.POOL", construct, acq.Pos(), "field is reset on the acquire path")
 					case s.assignParam:
